@@ -1,4 +1,7 @@
 import Vinegar.Lemmas.PathsSpec
+import Vinegar.Lemmas.PathsCheck
+import Vinegar.Lemmas.PathsHandle
+import Vinegar.Lemmas.PathsConsts
 /-
 C06 — request-path matching and system lookup are exact and equal for HTTP and TFTP.
 
@@ -141,11 +144,6 @@ theorem lookup_value_spec (cfg : Cfg) (h : Handler) (hinit : initHandler cfg = .
     simp only [List.cons.injEq] at this
     have h3 := List.append_cancel_right this.1
     exact (List.append_cancel_left h3).symm
-
-/-- the system a transformed value identifies: the value itself for ":system_id:", else what
-    `find_system(lookup_key, value)` answers (`none`: the call raised) -/
-def systemFor (h : Handler) (env : Env) (w : Str) : Option (Option Str) :=
-  if h.cfg.lookupKey.getD [] = sysIdKey then some (some w) else env.ds.findSystem (h.cfg.lookupKey.getD []) w
 
 @[simp] theorem isFind_find (k v : Str) : isFind (.findSystem k v) = true := rfl
 @[simp] theorem isFind_data (i : Str) : isFind (.getData i) = false := rfl
@@ -295,5 +293,226 @@ theorem tftp_parity (h : Handler) (env : Env) (method f : Str) :
   simp only [asTftp, if_true, Bool.false_eq_true, if_false, hrw, Bool.not_true, Bool.false_and,
     Bool.not_false, Bool.true_and, hget]
   rfl
+
+/-! ### the checker of the specification accepts every observation of the model -/
+
+theorem setup_request (h : Handler) (req : Str) :
+    prepare h req = prepareContext h ((setupOf h).request req) := rfl
+
+theorem systemOf_eq (h : Handler) (env : Env) (w : Str) :
+    systemOf (setupOf h) env.ds w = systemFor h env w := rfl
+
+/-- the lookup clause of the checker holds for what `_handle` does -/
+theorem lookupClause_model (h : Handler) (env : Env) (ctx : Ctx) (v : Str) (acc : Bool)
+    (hplain : h.extract = false → truthy h.cfg.lookupKey = false)
+    (hlook : h.extract = true → truthy h.cfg.lookupKey = true ∧ ctx.rawValue = some v) :
+    lookupClause (setupOf h) env.transform env.ds v
+      { accepted := acc, calls := (handleCore h env ctx).calls, opens := (handleCore h env ctx).opens,
+        outcome := some (handleCore h env ctx).outcome } = true := by
+  have hcalls : (handleCore h env ctx).calls = (handleLookup h env ctx).calls := by
+    rcases handleCore_cases h env ctx with ⟨_, hc⟩ | ⟨_, _, _, _, hc⟩ | ⟨_, _, _, _, _, hc⟩ |
+      ⟨_, _, _, _, _, _, _, _, hc⟩ | ⟨_, _, _, _, _, _, _, _, _, hc⟩ <;> rw [hc]
+  unfold lookupClause
+  cases hex : h.extract with
+  | false =>
+    have hl := hplain hex
+    simp only [setupOf, hl, Bool.false_eq_true, if_false, hcalls, handleLookup_plain h env ctx hex, List.isEmpty_nil]
+  | true =>
+    obtain ⟨hl, hraw⟩ := hlook hex
+    simp only [setupOf, hl, if_true]
+    cases htr : env.transform v with
+    | none =>
+      have hlk := handleLookup_raise h env ctx v hex hraw htr
+      have hout : (handleCore h env ctx).outcome = .internalError := by
+        rcases handleCore_cases h env ctx with ⟨_, hc⟩ | ⟨_, _, hr, _⟩ | ⟨_, _, hr, _⟩ |
+          ⟨_, _, _, hr, _⟩ | ⟨_, _, _, _, hr, _⟩
+        · rw [hc]
+        all_goals (rw [hlk] at hr; simp at hr)
+      simp only [hcalls, hlk, hout, List.isEmpty_nil, beq_self_eq_true, Bool.and_self]
+    | some w =>
+      have hlk := handleLookup_eq h env ctx v w hex hraw htr
+      simp only [hcalls]
+      simp only [systemOf]
+      rw [show (if h.cfg.lookupKey.getD [] = sysIdKey then some (some w)
+        else env.ds.findSystem (h.cfg.lookupKey.getD []) w) = systemFor h env w from rfl, hlk]
+      unfold findCalls
+      cases hs : systemFor h env w with
+      | none =>
+        by_cases hk : h.cfg.lookupKey.getD [] = sysIdKey <;> simp [hk, List.filter]
+      | some r =>
+        cases r with
+        | none => by_cases hk : h.cfg.lookupKey.getD [] = sysIdKey <;> simp [hk, List.filter]
+        | some sid =>
+          cases hn : needsData h <;> cases hd : env.ds.getData sid <;>
+            by_cases hk : h.cfg.lookupKey.getD [] = sysIdKey <;> simp [hk, List.filter, hd]
+
+/-- the template clause of the checker holds for what `_handle` does -/
+theorem templateClause_model (h : Handler) (env : Env) (ctx : Ctx) (v : Str) (acc : Bool)
+    (hplain : h.extract = false → truthy h.cfg.lookupKey = false)
+    (hlook : h.extract = true → truthy h.cfg.lookupKey = true ∧ ctx.rawValue = some v) :
+    templateClause (setupOf h) env.transform env.ds v
+      { accepted := acc, calls := (handleCore h env ctx).calls, opens := (handleCore h env ctx).opens,
+        outcome := some (handleCore h env ctx).outcome } = true := by
+  rcases handleCore_cases h env ctx with ⟨_, hc⟩ | ⟨_, _, _, _, hc⟩ | ⟨_, _, _, _, _, hc⟩ |
+    ⟨_, _, _, _, _, _, _, _, hc⟩ | ⟨sid, data, q, c, hr, _, hcond, _, _, hc⟩
+  · rw [hc]; rfl
+  · rw [hc]; rfl
+  · rw [hc]; rfl
+  · rw [hc]; rfl
+  · rw [hc]
+    unfold templateClause
+    cases ht : h.cfg.template with
+    | false => simp [setupOf, ht]
+    | true =>
+      simp only [if_true]
+      cases hex : h.extract with
+      | false =>
+        have hl := hplain hex
+        rw [handleLookup_plain h env ctx hex] at hr
+        simp only [Option.some.injEq, Prod.mk.injEq] at hr
+        obtain ⟨rfl, rfl⟩ := hr
+        simp [setupOf, hl]
+      | true =>
+        obtain ⟨hl, hraw⟩ := hlook hex
+        simp only [setupOf, hl, if_true]
+        cases htr : env.transform v with
+        | none =>
+          rw [handleLookup_raise h env ctx v hex hraw htr] at hr
+          simp at hr
+        | some w =>
+          rw [handleLookup_eq h env ctx v w hex hraw htr] at hr
+          simp only [systemOf]
+          rw [show (if h.cfg.lookupKey.getD [] = sysIdKey then some (some w)
+            else env.ds.findSystem (h.cfg.lookupKey.getD []) w) = systemFor h env w from rfl]
+          have hnd : needsData h = true := by simp [needsData, ht]
+          simp only [hex, Bool.true_and] at hcond
+          cases hs : systemFor h env w with
+          | none =>
+            rw [hs] at hr
+            by_cases ha : h.cfg.dsErrorAction = actionError
+            · simp [ha] at hr
+            · simp only [ha, if_false, Option.some.injEq, Prod.mk.injEq] at hr
+              obtain ⟨rfl, rfl⟩ := hr
+              simp at hcond
+              simp [hcond, ha]
+          | some r =>
+            cases r with
+            | none =>
+              rw [hs] at hr
+              simp only [Option.some.injEq, Prod.mk.injEq] at hr
+              obtain ⟨rfl, rfl⟩ := hr
+              simp at hcond
+              simp [hcond]
+            | some s0 =>
+              rw [hs] at hr
+              simp only [hnd, Bool.true_eq_false, if_false] at hr
+              cases hd : env.ds.getData s0 with
+              | some d =>
+                rw [hd] at hr
+                simp only [Option.some.injEq, Prod.mk.injEq] at hr
+                obtain ⟨rfl, rfl⟩ := hr
+                simp [hd]
+              | none =>
+                rw [hd] at hr
+                by_cases ha : h.cfg.dsErrorAction = actionError
+                · simp [ha] at hr
+                · simp only [ha, if_false, Option.some.injEq, Prod.mk.injEq] at hr
+                  obtain ⟨rfl, rfl⟩ := hr
+                  simp [ha, hd]
+
+theorem handleCore_not_405 (h : Handler) (env : Env) (ctx : Ctx) :
+    (handleCore h env ctx).outcome ≠ .methodNotAllowed := by
+  rcases handleCore_cases h env ctx with ⟨_, hc⟩ | ⟨_, _, _, _, hc⟩ | ⟨_, _, _, _, _, hc⟩ |
+    ⟨_, _, _, _, _, _, _, _, hc⟩ | ⟨_, _, _, _, _, _, _, _, _, hc⟩ <;> rw [hc] <;> simp
+
+/-- **The specification's checker accepts every observation of the model**: for every
+    configuration the constructor accepts, every environment (transformation, data source,
+    file system, client), method and request string, all three clauses of `c06Check` —
+    acceptance as decided by `Spec.accepts`, the lookup calls, the template context — hold
+    for what the model does. (This is the checker the driver evaluates on the real handlers.) -/
+theorem c06Check_model (cfg : Cfg) (h : Handler) (hinit : initHandler cfg = .ok h)
+    (env : Env) (method req : Str) :
+    (c06Check (setupOf h) env.transform env.ds req (requestOn h env method req).seen).all = true := by
+  obtain ⟨dec, hmode, _⟩ := initHandler_ok cfg h hinit
+  have hcfg := dec.cfg_eq
+  have hrp : (setupOf h).requestPath = cfg.requestPath := by simp [setupOf, hcfg]
+  have hph : (setupOf h).placeholder = phOf cfg := by simp [setupOf, phOf, hcfg]
+  have hfm : (setupOf h).fileMode = truthy cfg.file := by simp [setupOf, hcfg]
+  have hacc : (prepare h req).isMatch
+      = accepts cfg.requestPath (phOf cfg) (truthy cfg.file) ((setupOf h).request req) := by
+    rw [setup_request, Bool.eq_iff_iff]
+    exact (matches_iff cfg h hinit _).trans (accepts_iff _ _ _ _).symm
+  have hplain : h.extract = false → truthy h.cfg.lookupKey = false := by
+    intro hex
+    cases hl : truthy cfg.lookupKey with
+    | false => rw [hcfg]; exact hl
+    | true => rw [(dec.lookup hl).1] at hex; exact absurd hex (by simp)
+  have hlook0 : h.extract = true → truthy cfg.lookupKey = true := by
+    intro hex
+    cases hl : truthy cfg.lookupKey with
+    | true => rfl
+    | false => rw [(dec.plain hl).1] at hex; exact absurd hex (by simp)
+  unfold c06Check
+  simp only [hrp, hph, hfm]
+  unfold accepts at hacc
+  cases hws : witnesses cfg.requestPath (phOf cfg) (truthy cfg.file) ((setupOf h).request req) with
+  | nil =>
+    rw [hws] at hacc
+    simp only [List.isEmpty_nil, Bool.not_true] at hacc
+    unfold requestOn RequestObs.seen
+    simp [hacc, C06Verdict.all]
+  | cons v rest =>
+    rw [hws] at hacc
+    simp only [List.isEmpty_cons, Bool.not_false] at hacc
+    have hv : v ∈ witnesses cfg.requestPath (phOf cfg) (truthy cfg.file) ((setupOf h).request req) := by
+      rw [hws]; simp
+    obtain ⟨_, hw⟩ := (mem_witnesses _ _ _ _ _).mp hv
+    have hwit : IsWitness cfg ((setupOf h).request req) v := by
+      obtain ⟨extra, t, h1, h2, h3, h4⟩ := (witnessOK_iff _ _ _ _ _).mp hw
+      exact ⟨extra, t, h1, h2, h3, h4⟩
+    have hlook : h.extract = true → truthy h.cfg.lookupKey = true ∧ (prepare h req).rawValue = some v := by
+      intro hex
+      have hl := hlook0 hex
+      refine ⟨by rw [hcfg]; exact hl, ?_⟩
+      rw [setup_request] at hacc ⊢
+      obtain ⟨v0, hraw, _, huniq⟩ := lookup_value_spec cfg h hinit _ hl hacc
+      rw [hraw, huniq v hwit]
+    unfold requestOn RequestObs.seen
+    simp only [hacc, if_true]
+    unfold handle
+    by_cases hmeth : (!h.cfg.tftp && !httpMethods.contains method) = true
+    · simp only [hmeth, if_true]
+      simp [C06Verdict.all]
+    · simp only [hmeth, Bool.false_eq_true, if_false]
+      have h405 : ((handleCore h env (prepare h req)).outcome == Outcome.methodNotAllowed) = false := by
+        rw [beq_eq_false_iff_ne]; exact handleCore_not_405 h env _
+      simp only [h405, Bool.false_eq_true, if_false, C06Verdict.all, Bool.and_eq_true]
+      refine ⟨⟨by simp, ?_⟩, ?_⟩
+      · exact lookupClause_model h env (prepare h req) v true hplain hlook
+      · exact templateClause_model h env (prepare h req) v true hplain hlook
+
+/-! ### sanity: the hypotheses are satisfiable, the known-bad behaviour is rejected -/
+
+/-- a configuration the constructor accepts (directory mode, placeholder in the last segment) -/
+def exampleCfg : Cfg :=
+  { tftp := true, requestPath := "/p/...".toList, file := none, rootDir := some "/srv/root".toList,
+    fileSuffix := none, lookupKey := some "net:mac".toList, placeholder := "...".toList,
+    noResultAction := "not_found".toList, dsErrorAction := "error".toList, template := false,
+    clientAddressKey := none, clientAddressList := [] }
+
+example : ∃ h, initHandler exampleCfg = .ok h := ⟨_, rfl⟩
+
+/-- the repaired rewrite: a name starting with "%2f" gets its slash like any other -/
+example : tftpRewrite "%2fp/a.txt".toList = "/%2fp/a.txt".toList := by decide
+
+/-- D10 is rejected by the specification: for `request_path = /p` (directory mode) the TFTP name
+    "%2fp/a.txt" — i.e. the HTTP path "/%2fp/a.txt" — is not an accepted request, so an
+    observation "accepted" fails the acceptance clause of the checker -/
+example : accepts "/p".toList none false (slashed "%2fp/a.txt".toList) = false := by decide
+
+example : accepts "/p".toList none false (slashed "p/a.txt".toList) = true := by decide
+
+example : witnesses "/p/x-...".toList (some "...".toList) false "/p/x-%61b/f.txt?q".toList = ["ab".toList] := by
+  decide
 
 end Vinegar.C06
